@@ -37,9 +37,16 @@ pub enum Variant {
     /// reference-typed arguments: a single `&[u64]` argument (recursion over sub-slices), or a `&mut Vec<u64>` passed
     /// along as the last argument; the closure is called several times with borrows of different lifetimes
     Refs,
+    /// the `lin` body, but the name chosen for the recursive calls coincides with the name of a captured variable or of
+    /// an argument (macro names live in their own namespace, so `dp!(n - 1)` next to a capture called `dp` is lawful)
+    Names,
+    /// the `lin` body run 1.3 million frames deep on a large stack (a terminating recursion of any depth the stack can
+    /// hold is lawful); sub-grid: at most two captures, at most two arguments
+    Deep,
 }
 
-pub const ALL_VARIANTS: [Variant; 5] = [Variant::Lin, Variant::Two, Variant::Types, Variant::Mix, Variant::Refs];
+pub const ALL_VARIANTS: [Variant; 7] = [Variant::Lin, Variant::Two, Variant::Types, Variant::Mix, Variant::Refs, Variant::Names, Variant::Deep];
+pub const DEEP_DEPTH: u64 = 1_300_000;
 
 impl Variant {
     pub fn name(self) -> &'static str {
@@ -49,6 +56,8 @@ impl Variant {
             Variant::Types => "types",
             Variant::Mix => "mix",
             Variant::Refs => "refs",
+            Variant::Names => "names",
+            Variant::Deep => "deep",
         }
     }
     pub fn parse(s: &str) -> Option<Variant> {
@@ -206,6 +215,20 @@ impl Shape {
         self.caps.len() >= 2 || self.nargs >= 3 || self.tc
     }
 
+    /// the identifier given to the macro for recursive calls
+    pub fn call_name(&self) -> String {
+        if self.variant != Variant::Names {
+            return "rec".to_string();
+        }
+        let caps = self.cap_infos();
+        let code: usize = self.caps.iter().fold(self.caps.len(), |a, c| a * 2 + (*c == Cap::M) as usize) + self.nargs + self.ret as usize;
+        if !caps.is_empty() && code % 2 == 0 {
+            caps[code / 2 % caps.len()].name.clone()
+        } else {
+            format!("a{}", code / 2 % self.nargs)
+        }
+    }
+
     fn is_ref_arg(&self, i: usize) -> bool {
         self.variant == Variant::Refs && (self.nargs == 1 || i + 1 == self.nargs)
     }
@@ -277,7 +300,7 @@ impl Shape {
             c.join(", "),
             a.join(", "),
             if self.ret { self.ret_ty() } else { "<none>" },
-            if self.tc { "rec!(x, y,)" } else { "rec!(x, y)" },
+            if self.tc { format!("{}!(x, y,)", self.call_name()) } else { format!("{}!(x, y)", self.call_name()) },
             self.variant.name()
         )
     }
@@ -300,7 +323,9 @@ impl Shape {
         }
         let vs: Vec<String> = (0..k).map(|i| format!("v{i}")).collect();
         // call budget: a runaway recursion becomes a panic (caught in main) instead of a stack overflow
-        l.insert(0, "crate::support::tick();".to_string());
+        if self.variant != Variant::Deep {
+            l.insert(0, "crate::support::tick();".to_string());
+        }
         // trace: (call index, arguments), flattened
         if let Some(t) = caps.iter().find(|c| c.is_trace) {
             l.push(format!("let call_index = {}.len() as u64;", t.name));
@@ -381,13 +406,13 @@ impl Shape {
         };
         let cond = if k >= 2 { "v1 % 2 == 0" } else { "v0 % 3 == 0" };
         match self.variant {
-            Variant::Lin | Variant::Types | Variant::Refs => {
+            Variant::Lin | Variant::Types | Variant::Refs | Variant::Names | Variant::Deep => {
                 let refs1 = self.variant == Variant::Refs && k == 1;
                 let ca = call(&list(if refs1 { "&a0[1..]".into() } else { "a0 - 1".into() }, 0, None));
                 let cb = call(&list(
                     if refs1 {
                         "&a0[..a0.len() / 2]".into()
-                    } else if k == 1 {
+                    } else if k == 1 && self.variant != Variant::Deep {
                         "a0 / 2".into()
                     } else {
                         "a0 - 1".into()
@@ -475,11 +500,13 @@ impl Shape {
         let caps = self.cap_infos();
         let k = self.nargs;
         let tc = self.tc;
+        let cname = self.call_name();
+        let cname2 = cname.clone();
         let macro_call = move |a: &[String]| -> String {
             if tc {
-                format!("rec!({},)", a.join(", "))
+                format!("{}!({},)", cname2, a.join(", "))
             } else {
-                format!("rec!({})", a.join(", "))
+                format!("{}!({})", cname2, a.join(", "))
             }
         };
         let cap_names: Vec<String> = caps.iter().map(|c| c.name.clone()).collect();
@@ -492,6 +519,10 @@ impl Shape {
         let w = &mut s;
         writeln!(w, "// BEGIN SHAPE {} {}", id, self.describe()).unwrap();
         writeln!(w, "pub fn {fn_name}(inp: [u64; 4], k0: u64) -> Result<u64, String> {{").unwrap();
+        if self.variant == Variant::Deep {
+            writeln!(w, "    // the input whose first argument is 12 becomes the deep one").unwrap();
+            writeln!(w, "    let inp = [if inp[0] == 12 {{ {} + k0 % 7 }} else {{ inp[0] }}, inp[1], inp[2], inp[3]];", DEEP_DEPTH).unwrap();
+        }
         writeln!(w, "    // ---- macro version").unwrap();
         for c in &caps {
             let init = if c.is_trace { "Vec::new()".to_string() } else { c.ty.init(c.idx, c.kind == Cap::M) };
@@ -516,7 +547,7 @@ impl Shape {
             .map(|c| format!("{}: {}{}", c.name, if c.kind == Cap::R { "&" } else { "&mut " }, c.ty.name()))
             .collect();
         let arg_list: Vec<String> = (0..k).map(|i| format!("a{}: {}", i, self.arg_ty(i))).collect();
-        writeln!(w, "        let mut lam = rec_lambda!(rec, |{}| {{", cap_list.join(", ")).unwrap();
+        writeln!(w, "        let mut lam = rec_lambda!({}, |{}| {{", cname, cap_list.join(", ")).unwrap();
         if self.ret {
             writeln!(w, "            |{}| -> {} {{", arg_list.join(", "), self.ret_ty()).unwrap();
         } else {
@@ -733,6 +764,9 @@ pub fn all_shapes(variants: &[Variant]) -> Vec<Shape> {
             for nargs in 1..=4 {
                 for ret in [true, false] {
                     for tc in [false, true] {
+                        if variant == Variant::Deep && (caps.len() > 2 || nargs > 2 || tc) {
+                            continue; // sub-grid: depth is what is varied here
+                        }
                         v.push(Shape { variant, caps: caps.clone(), nargs, ret, tc });
                     }
                 }
@@ -781,6 +815,12 @@ incremental = false
 overflow-checks = true
 debug-assertions = false
 lto = "off"
+
+# the same code with debug assertions compiled in (the macro expands into this crate, so a debug_assert! or a
+# cfg!(debug_assertions) inside the expansion follows this crate's profile)
+[profile.checked]
+inherits = "release"
+debug-assertions = true
 
 [workspace]
 "#
@@ -893,7 +933,7 @@ fn inputs(seed: u64) -> Vec<([u64; 4], u64)> {
 fn main() {
     // the call budget bounds the depth; 5000 unoptimised frames need more than the default stack
     let code = std::thread::Builder::new()
-        .stack_size(1 << 30)
+        .stack_size(6usize << 30)
         .spawn(real_main)
         .expect("spawn")
         .join()
